@@ -96,6 +96,8 @@ def run(repo, rep):
     rule_cpu_pass_move(repo, rep)
     rep.clause("C13-aj", "chain merges (pre -> mid -> post into mid) go ahead only if each tensor in between has exactly one consumer")
     rule_chain_merge_consumers(repo, rep)
+    rep.clause("C13-al", "optional string members of option tables are written only when present (None excluded before CreateString)")
+    rule_optional_strings(repo, rep)
     rep.clause("C13-ak", "elements of tensor consumer lists (None marks a subgraph output) are dereferenced only under a None test")
     from .shared import consumer_deref_lint as _cdl
 
@@ -2202,3 +2204,36 @@ def rule_chain_merge_consumers(repo, rep):
                       "(DEQUANTIZE -> EXP -> QUANTIZE with a second QUANTIZE on EXP's output: AssertionError in rewrite_graph.verify_graph_health)")
     if n < 2:
         raise AnalysisError(f"tflite_graph_optimiser: {n} chain merges found")
+
+
+def rule_optional_strings(repo, rep):
+    """(al) string members of option tables are optional in the flatbuffer: the reader stores None for an absent one (VAR_HANDLE without
+    `container`). The writer may hand an option attribute to builder.CreateString only under a test that excludes None."""
+    tw = repo.mod("tflite_writer")
+    n = 0
+    for q, fn in tw.functions.items():
+        for c in ast.walk(fn):
+            if not (isinstance(c, ast.Call) and isinstance(c.func, ast.Attribute) and c.func.attr == "CreateString" and c.args):
+                continue
+            a = c.args[0]
+            if not (isinstance(a, ast.Subscript) and str(norm(a.value)) in ("attrs", "op.attrs")):
+                continue
+            n += 1
+            t = str(norm(a))
+            ok = False
+            child, cur = c, tw.parents.get(c)
+            while cur is not None and cur is not fn:
+                if isinstance(cur, ast.If):
+                    tt = str(norm(cur.test))
+                    in_body = any(child is x for st in cur.body for x in ast.walk(st))
+                    in_else = any(child is x for st in cur.orelse for x in ast.walk(st))
+                    key = t[t.index("["):]
+                    if in_else and (f"{t} is None" in tt or f"attrs.get({key[1:-1]}) is None" in tt):
+                        ok = True
+                    if in_body and (f"{t} is not None" in tt or f"attrs.get({key[1:-1]}) is not None" in tt or f"isinstance({t}, str)" in tt):
+                        ok = True
+                child, cur = cur, tw.parents.get(cur)
+            rep.check(ok, "C13-al", f"ethosu/vela/tflite_writer.py:{q}", f"`{str(norm(c))[:60]}` is reached only for a present string",
+                      f"`{t}` may be None (the member is absent in the source model): TypeError 'non-string passed to CreateString' (VAR_HANDLE with shared_name but no container)")
+    if n < 1:
+        raise AnalysisError("tflite_writer: no option string is handed to CreateString")
